@@ -245,10 +245,71 @@ func checkFilterFacts(c FilterCase) (*Violation, filterFacts) {
 	return nil, f
 }
 
+// filterTableCases: conditions whose operand selects several elements (subscript
+// lists and ranges, wildcards, keyvalue) of which only some satisfy a further
+// step, over items in which the satisfying element sits first, last or nowhere.
+func filterTableCases() []FilterCase {
+	conds := []string{
+		`exists(@[0, 1] ? (@ > 1))`, `exists(@[0 to 1] ? (@ > 1))`, `exists(@[1, 0] ? (@ > 1))`, `exists(@[0 to last] ? (@ > 1))`, `exists(@[*] ? (@ > 1))`,
+		`exists(@.a[0 to last] ? (@ > 1))`, `exists(@.a[0, 1] ? (@ > 1))`, `exists(@.a[*] ? (@ > 1))`, `exists(@.keyvalue() ? (@.value > 1))`, `exists(@.keyvalue().value ? (@ > 1))`,
+		`exists(@[0, 1].a)`, `exists(@[0, 5])`, `exists(@[5, 0])`, `exists(@.a)`, `exists(@ ? (@[0] > 1))`, `exists(@[last])`, `exists(@[0] ? (@ > 1))`, `exists(@[1] ? (@ > 1))`,
+		`!exists(@[0, 1] ? (@ > 1))`, `!exists(@.a[0 to last] ? (@ > 1))`, `(exists(@[0, 1] ? (@ > 1))) is unknown`, `exists(@[0, 1] ? (@ > 1)) || exists(@[5])`, `exists(@[5]) || exists(@[0, 1] ? (@ > 1))`,
+		`@[0, 1] > 1`, `@[0 to 1] > 1`, `@[1, 0] > 1`, `@.a[*] > 1`, `@[*] > 1 && @[*] < 1`, `(@[0, 1] > 1) is unknown`, `@[0] > @[1]`, `@[0, 5] > 1`, `@[0, 1] == @[1, 0]`, `@[*] > 1`, `@.a[0 to last] > 1`,
+		`exists(@[0, 1] ? (@ > 1).type())`, `exists(@[0, 1].abs() ? (@ > 1))`, `exists(-@[0, 1])`, `exists((@[0, 1] ? (@ > 1)) + 1)`, `exists(@.*[0] ? (@ > 1))`, `exists(@.a.b)`, `exists(@[0 to 1] ? (exists(@ ? (@ > 1))))`,
+		`@.keyvalue().value > 1`, `@.keyvalue().key == "a"`, `exists(@.keyvalue() ? (@.key == "b" && @.value > 1))`, `@[0, 1] starts with "a"`, `@[*] like_regex "^a"`, `exists(@[0, 1] ? (@ starts with "a"))`,
+	}
+	docs := []string{
+		`[[5,0],[0,5],[5,5],[0,0],[5],[]]`,
+		`[{"a":[5,0]},{"a":[0,7]},{"a":[]},{"a":[0,0]},{"a":5}]`,
+		`[{"a":5,"b":0},{"a":0,"b":5},{"a":0},{"b":7}]`,
+		`[["ab","x"],["x","ab"],[1,"ab"],["ab",1]]`,
+		`[[{"a":1},{"b":2}],[{"b":2},{"a":1}],[[5,0],[0]]]`,
+	}
+	var out []FilterCase
+	for _, cd := range conds {
+		p, err, pan := ParseSafe("$[*] ? (" + cd + ")")
+		if err != nil || pan != "" {
+			panic(fmt.Sprintf("harness: %q does not parse: %v %s", cd, err, pan))
+		}
+		tree := PathFromAST(p.AST)
+		cond := tree.Root.Next.Next.A
+		for _, d := range docs {
+			for _, strict := range []bool{false, true} {
+				for _, pfx := range []*Node{{K: KAnyArr}, {K: KIdx, Subs: []Sub{{From: &Node{K: KInt, I: 0}, To: &Node{K: KLast}}}}} {
+					out = append(out, FilterCase{Strict: strict, Prefix: pfx, Cond: cond, Doc: d})
+				}
+			}
+		}
+	}
+	return out
+}
+
 func TestC10(t *testing.T) {
 	ev := newEv(t, "C10")
 	c10Ev = ev
 	ev.replayTier(t)
+	t.Run("multi_element_operands", func(t *testing.T) {
+		b := ev.enum(t)
+		cs := filterTableCases()
+		for i, c := range cs {
+			if !mine(i) {
+				continue
+			}
+			v, f := checkFilterFacts(c)
+			key, _ := json.Marshal(c)
+			ev.Eval(string(key), f.skipped == "" && f.items >= 2)
+			if f.skipped != "" {
+				ev.Label("skipped:" + f.skipped)
+			} else {
+				ev.Label("checked")
+			}
+			ev.Sample("table:"+f.skipped, map[string]string{"filter": (&Path{Strict: c.Strict, Root: &Node{K: KRoot, Next: &Node{K: KFilter, A: c.Cond}}}).Canon(), "doc": c.Doc, "outcomes": f.outcomes})
+			if !b.Check("c10.filter", c, v) {
+				return
+			}
+		}
+		ev.Exhaustive("multi_element_operand_conditions_by_documents_by_mode", int64(len(cs)))
+	})
 	ev.rapidProp(t, "random", func(rt *rapid.T) {
 		cfg := GenCfg{MaxNodes: 10, HardErrPct: 8, NoWildKey: true, NoKeyvalue: true}.withDefaults()
 		if rapid.IntRange(0, 9).Draw(rt, "anyok") < 7 {
